@@ -415,4 +415,31 @@ theorem parse_arity (cs : List Char) (out : List (Char × List Arg)) (h : parse 
           refine ⟨_, rfl, hone _ ?_⟩
           rw [if_neg hc]; rfl
 
+
+/-- what `check_cmd` lets through: the letter is known, and the argument count is a multiple of its arity (zero for `z`/`Z`) -/
+def arityOK (e : Char × List Arg) : Prop :=
+  ∃ k, numArgs e.1 = some k ∧ (k = 0 → e.2.length = 0) ∧ (0 < k → e.2.length % k = 0)
+
+theorem parse_unexploded_arity (cs : List Char) (out : List (Char × List Arg)) (h : parse false cs = .ok out) :
+    ∀ e ∈ out, arityOK e := by
+  unfold parse at h
+  simp only [] at h
+  simp only [bind, Except.bind] at h
+  split at h
+  · cases h
+  · rename_i o ho
+    simp [pure, Except.pure] at h; subst h
+    refine forIn_inv arityOK _ ?_ _ [] o (by simp) ho
+    intro x r s hs
+    split at hs
+    · cases hs
+    · rename_i args ha
+      split at hs
+      · cases hs
+      · rename_i k hk
+        simp [pure, Except.pure] at hs; subst hs
+        refine ⟨_, rfl, ?_⟩
+        intro e he; simp at he; subst he
+        exact ⟨k, checkCmd_ok _ _ _ hk⟩
+
 end PicoSVG.PathLex
